@@ -28,6 +28,8 @@ CLAIMS = {
          "trusts rustc's MIR/callee resolution; class-hierarchy edges for the sealed Reader/JsonInput/Index traits"),
  "C18": ("static protocol obligations of the publish-once caches decided on the MIR of the current tree (weak-CAS discipline, hand-over type agreement, loser cleanup and returned pointer, owner clone/drop pairing, memory orderings); each is a necessary condition of C18; behaviour under interleavings is NOT decided",
          "trusts rustc's MIR and callee resolution, and the memory model's meaning of the ordering constants"),
+ "C20": ("structural necessary conditions decided on the current tree: indices handed to the error renderer are clamped/constant/validator-made and the stored offset is the one whose line/column is computed; visitor-made errors pass fix_position in every serde method that calls a visitor itself (error taint on the MIR); not-found codes constructed only in path walkers that non-lookup entries cannot reach; stream latch tested first and set on the error edge; Display cannot panic; errors of the in-place parser are re-rendered over the caller's text and index == len counts as inside. That the offset is the right one and the line/column arithmetic are NOT decided",
+         "trusts rustc's MIR/callee resolution; callback model for serde visitors"),
 }
 def main():
     props = [json.loads(l) for l in open(os.path.join(V, "properties.jsonl"))]
